@@ -62,7 +62,12 @@ Record probj := {
   pr_name : string;
   pr_valid : bool;          (* ValidateDosProtectedResource = nil *)
   pr_pol : string;          (* spec.apDosPolicy *)
-  pr_log : option string    (* spec.dosSecurityLog: None = nil, Some r = .apDosLogConf *)
+  pr_log : option string;   (* spec.dosSecurityLog: None = nil, Some r = .apDosLogConf *)
+  (* spec.enable and spec.dosSecurityLog.enable: carried by the object, read by NO function of the
+     DoS Configuration (neither the usability tests nor the two GetDosProtectedThatReferenced...
+     searches); the theorems therefore say that usability and reporting do not depend on them *)
+  pr_enable : bool;
+  pr_log_enable : bool
 }.
 
 (* ------------------------------------------------------------------------------------------ *)
